@@ -156,11 +156,13 @@ UnchangedHdr == UNCHANGED <<trno, servers, tab, params>>
 
 (* ---- a state line (also crash / down lines): merge the projection, update agreed, judge ---- *)
 StepPreds(n, h, pre, preLog, post, postLog, postSn) ==
+  \* a repeated grant to the same candidate in the same term is the same vote, not a new one
+  LET regrant == h.kind = "rv" /\ h.regrant IN
   IF h.kind \in {"ae", "hb"} /\ Has(h, "resp") THEN
       (IF AESuccessOK(AEReq(h.req), postLog, h.resp) THEN {} ELSE {<<"C04", "AESuccess", <<n, h.id>>>>})
       \cup (IF AETruncateOK(preLog, AEReq(h.req), postLog, SnapIdxOf(postSn)) THEN {} ELSE {<<"C04", "AETruncate", <<n, h.id>>>>})
   ELSE IF h.kind = "rv" /\ Has(h, "resp") /\ h.resp.granted THEN
-      (IF UpToDate(h.req, LastEntry(pre)) THEN {} ELSE {<<"C06", "GrantNotUpToDate", <<n, h.id, h.req, LastEntry(pre)>>>>})
+      (IF UpToDate(h.req, LastEntry(pre)) \/ regrant THEN {} ELSE {<<"C06", "GrantNotUpToDate", <<n, h.id, h.req, LastEntry(pre)>>>>})
       \cup (IF pre.cl = NoCfg \/ IsVoter(tab, pre.cl, h.req.cand) THEN {} ELSE {<<"C06", "GrantNonVoter", <<n, h.id>>>>})
       \cup (IF h.req.term >= pre.term THEN {} ELSE {<<"C06", "GrantOldTerm", <<n, h.id>>>>})
       \cup (IF post.vt = h.req.term /\ post.vc = h.req.cand THEN {} ELSE {<<"C06", "GrantNotDurable", <<n, h.id, post.vt, post.vc>>>>})
@@ -226,9 +228,10 @@ DoState(ln) ==
                 {<<"C11", "Hole", <<n, i>>>> : i \in {k \in (SnapIdxOf(postSn) + 1)..DurableLast(postLog, postSn) : k \notin DOMAIN postLog}}
       vLast  == IF post.up /\ post.last > DurableLast(postLog, postSn)
                 THEN {<<"C11", "ReportedBeyondDurable", <<n, post.last, DurableLast(postLog, postSn)>>>>} ELSE {}
-      hs     == hpend[n]
-      vStep  == IF Len(hs) = 1 THEN StepPreds(n, hs[1], pre, preLog, post, postLog, postSn) ELSE {}
-      nc     == IF Len(hs) = 1 /\ pre.up /\ post.up THEN Conformance(n, hs[1], pre, preLog, post, postLog) ELSE {}
+      hs     == IF ln.ev = "state" THEN hpend[n] ELSE <<>>
+      clean  == Has(ln, "clean") /\ ln.clean
+      vStep  == IF Len(hs) = 1 /\ clean THEN StepPreds(n, hs[1], pre, preLog, post, postLog, postSn) ELSE {}
+      nc     == IF Len(hs) = 1 /\ clean /\ pre.up /\ post.up THEN Conformance(n, hs[1], pre, preLog, post, postLog) ELSE {}
       V      == conf \cup vTerm \cup vCommit \cup vLog \cup vHole \cup vLast \cup vStep
   IN
   /\ obs' = o2 /\ dlog' = dl2 /\ dsnaps' = ds2 /\ agreed' = ag2
@@ -264,7 +267,7 @@ DoHandle(ln) ==
       g == IF ln.kind = "rv" /\ Has(ln, "resp") /\ ln.resp.granted THEN {<<n, ln.req.term, ln.req.cand>>} ELSE {}
       V == {<<"C06", "TwoVotesInTerm", <<n, x[2], x[3], ln.req.cand>>>> :
               x \in {y \in grants : g # {} /\ y[1] = n /\ y[2] = ln.req.term /\ y[3] # ln.req.cand}}
-  IN /\ hpend' = [hpend EXCEPT ![n] = Append(@, ln)]
+  IN /\ hpend' = [hpend EXCEPT ![n] = Append(@, [regrant |-> (g # {} /\ g \subseteq grants)] @@ ln)]
      /\ grants' = grants \cup g
      /\ ReportV(V) /\ Count(V, {})
      /\ UNCHANGED <<obs, dlog, dsnaps, agreed, leaders, pendVT, fsmLast, fsmOpen, bases, everSeen, opsInv, acked, burned>>
